@@ -3,6 +3,7 @@ package c15
 
 import (
 	"fmt"
+	"os"
 	"reflect"
 	"strings"
 
@@ -16,6 +17,22 @@ func init() {
 	harness.RegisterReplay("avcpps", harness.Replayer(checkAVCPPS))
 	harness.RegisterReplay("avcslice", harness.Replayer(checkAVCSlice))
 	harness.RegisterReplay("avcconf", harness.Replayer(checkAVCConf))
+	// VERIF_C15_AVC_UNAVOID=name[,name...]|all turns known-defect avoidance switches off for one run
+	// (to confirm that a defect is still there, or that it is gone after a repair).
+	if v := os.Getenv("VERIF_C15_AVC_UNAVOID"); v != "" {
+		for _, n := range strings.Split(v, ",") {
+			if n == "all" {
+				for k := range avcAvoidKnown {
+					avcAvoidKnown[k] = false
+				}
+			} else if _, ok := avcAvoidKnown[n]; ok {
+				avcAvoidKnown[n] = false
+			} else {
+				fmt.Fprintf(os.Stderr, "VERIF_C15_AVC_UNAVOID: unknown switch %q\n", n)
+				os.Exit(2)
+			}
+		}
+	}
 }
 
 // avcAvoidKnown: each entry names a defect of the unchanged library that was confirmed by decoding the
@@ -56,6 +73,12 @@ var avcAvoidKnown = map[string]bool{
 	// avc.CreateAVCDecConfRec hard-codes ChromaFormat=1, BitDepthLumaMinus1(=minus8)=0, BitDepthChromaMinus1=0.
 	// Avoidance: the first SPS of a configuration record is 4:2:0 8 bit.
 	"avc-conf-chroma-bitdepth-hardcoded": true,
+	// (a finding of C01/C02, seen here through C15's init-segment round trip) avc.DecConfRec.Size counts the four
+	// trailing bytes chroma_format.. for every profile except 66/77/88, EncodeSW writes them only for 100/110/122/144:
+	// for the other profiles (244, 44, 83, 86, 118, 128, 134, 135, 138, 139) the avcC box says size+4 but is 4 bytes
+	// short, and the enclosing init segment cannot be decoded ("moov: expected N bytes, got N-4").
+	// Avoidance: for those profiles the box/init-segment encode+decode step of the conf check is not requested.
+	"avc-conf-avcc-size-encode-mismatch": true,
 }
 
 // avcAvoid reports whether the switch is on; when the drawn feature `hit` would trigger the defect
